@@ -114,6 +114,10 @@ class Module:
 
             if "contextmanager" in source:
                 self.inlined += expand_context_managers(self.tree, set(KNOWN.get(name, [])))
+            if "yield" in source:
+                from .inline import collect_generators
+
+                self.inlined += collect_generators(self.tree, set(KNOWN.get(name, [])) | renamed_known)
             self.inlined += normalise_new(self.tree, set(KNOWN.get(name, [])) | renamed_known, foreign_attrs, set(SHAPES))
             from .inline import simplify
 
